@@ -1065,6 +1065,14 @@ def gen_requests(rng, spec):
             req = {'op': op, 'layers': [layer], 'version': rng.choice(['1.1.1', '1.3.0']), 'srs': srs, 'bbox': bbox, 'size': size,
                    'format': rng.choice(['image/png', 'image/png', 'image/jpeg', 'image/gif']), 'dims': dims, 'target': target['name'],
                    'want': [cmode, rmode]}
+            if op == 'getmap' and rng.random() < 0.08:
+                # numbers that are no numbers: every comparison with NaN is false, a gate written as "not disjoint" lets them
+                # through, one written as "overlaps" does not
+                bad_ = list(bbox)
+                for k_ in rng.sample(range(4), rng.choice([1, 2, 4])):
+                    bad_[k_] = rng.choice([float('nan'), float('nan'), float('inf'), float('-inf'), 1e308, -1e308])
+                req['bbox'] = bad_
+                req['want'] = ['nonfinite', rmode]
             if op == 'getmap' and rng.random() < 0.15:
                 other = rng.choice([x for x in set(layers) if x != layer])
                 req['layers'] = [layer, other] if rng.random() < 0.5 else [other, layer]
